@@ -125,30 +125,49 @@ def sharing(ctx, d1):
     # link_with: exactly the selected parts
     f = prog.method('Stream', 'link_with', rel=ST)
     o = f.params[1]
-    ps, _ = run_paths(f.node, max_paths=4000)
     bad = {}
     n = 0
-    for p in ps:
-        if p.raised:
-            continue
-        n += 1
-        flags = {k: implied(p.conds, lambda e, k=k: src(e) == k) for k in ('flow', 'TP', 'phase')}
-        got = _stores(p)
-        has = {
-            'flow': got.get('self._imol.data') == '%s._imol.data' % o,
-            'TP': got.get('self._thermal_condition') == '%s._thermal_condition' % o,
-            'phase': got.get('self._imol._phase') == '%s._imol._phase' % o,
-        }
-        for k in ('flow', 'TP'):
-            if flags[k] is True and not has[k]:
-                bad[k] = 'selected part %s is not shared' % k
-            if flags[k] is False and has[k]:
-                bad[k] = 'part %s is shared although it was not selected' % k
-        if flags['phase'] is False and has['phase']:
-            bad['phase'] = 'phase is shared although it was not selected'
-        one_d = implied(p.conds, lambda e: src(e) == 'self._imol.data.ndim == 1')
-        if flags['phase'] is True and one_d is True and not has['phase']:
-            bad['phase'] = 'selected phase is not shared'
+    import itertools
+    for combo in itertools.product((True, False), repeat=3):
+        flags = dict(zip(('flow', 'TP', 'phase'), combo))
+
+        def tri(t):
+            if isinstance(t, ast.Name) and t.id in flags:
+                return flags[t.id]
+            if isinstance(t, ast.UnaryOp) and isinstance(t.op, ast.Not):
+                v = tri(t.operand)
+                return None if v is None else (not v)
+            if isinstance(t, ast.BoolOp):
+                vals = [tri(v) for v in t.values]
+                if isinstance(t.op, ast.And):
+                    if any(v is False for v in vals):
+                        return False
+                    return True if all(v is True for v in vals) else None
+                if any(v is True for v in vals):
+                    return True
+                return False if all(v is False for v in vals) else None
+            return None
+        ps, _ = run_paths(f.node, decide=lambda t, st: tri(t), max_paths=4000)
+        for p in ps:
+            if p.raised:
+                continue
+            n += 1
+            got = _stores(p)
+            has = {
+                'flow': got.get('self._imol.data') == '%s._imol.data' % o,
+                'TP': got.get('self._thermal_condition') == '%s._thermal_condition' % o,
+                'phase': got.get('self._imol._phase') == '%s._imol._phase' % o,
+            }
+            for k in ('flow', 'TP'):
+                if flags[k] is True and not has[k]:
+                    bad[k] = 'selected part %s is not shared' % k
+                if flags[k] is False and has[k]:
+                    bad[k] = 'part %s is shared although it was not selected' % k
+            if flags['phase'] is False and has['phase']:
+                bad['phase'] = 'phase is shared although it was not selected'
+            one_d = implied(p.conds, lambda e: src(e) == 'self._imol.data.ndim == 1')
+            if flags['phase'] is True and one_d is True and not has['phase']:
+                bad['phase'] = 'selected phase is not shared'
     for k in ('flow', 'TP', 'phase'):
         if k in bad:
             d1.fail('Stream.link_with', 'contract-' + k, bad[k], f, f.node)
